@@ -99,6 +99,7 @@ func loadKnown() ([]KnownFinding, error) {
 }
 
 type Loaded struct {
+	PPkg     *packages.Package
 	Prog     *ssa.Program
 	Pkg      *ssa.Package
 	LoadSecs float64
@@ -155,7 +156,7 @@ func load() (*Loaded, error) {
 	}
 	prog, spkgs := ssautil.AllPackages(pkgs, ssa.InstantiateGenerics)
 	prog.Build()
-	l := &Loaded{Prog: prog, Pkg: spkgs[0], SrcHash: map[string]string{}}
+	l := &Loaded{PPkg: pkgs[0], Prog: prog, Pkg: spkgs[0], SrcHash: map[string]string{}}
 	ents, _ := os.ReadDir(repoDir)
 	for _, e := range ents {
 		if strings.HasSuffix(e.Name(), ".go") && !strings.HasSuffix(e.Name(), "_test.go") {
@@ -168,4 +169,20 @@ func load() (*Loaded, error) {
 	}
 	l.LoadSecs = time.Since(t0).Seconds()
 	return l, nil
+}
+
+// loadTyped loads only the package under test with type information (for the
+// native-replay instrumenter when no SSA is needed).
+func loadTyped() (*packages.Package, error) {
+	env := append(os.Environ(), "GOFLAGS=-mod=mod", "GOPROXY=off")
+	cfg := &packages.Config{Mode: packages.NeedName | packages.NeedFiles | packages.NeedSyntax | packages.NeedTypes | packages.NeedTypesInfo | packages.NeedImports | packages.NeedDeps,
+		Dir: repoDir, Env: env}
+	pkgs, err := packages.Load(cfg, ".")
+	if err != nil {
+		return nil, err
+	}
+	if packages.PrintErrors(pkgs) > 0 {
+		return nil, fmt.Errorf("package does not type-check")
+	}
+	return pkgs[0], nil
 }
